@@ -4,7 +4,7 @@ import ast
 import z3
 from vf.pyvc import engine as E
 from vf.pyvc.engine import (Val, Exc, Unsupported, NONE, Int, Bool, Str, JV, Rec, Opt, SetV, Seq, S, J, TAG, tag, has, get, elem, jlen, sof, sat)
-from vf.pyvc.contract import Contract, expect
+from vf.pyvc.contract import Contract, SortMismatch, expect
 from vf.pyvc.lib import real_sig, bind_actuals
 
 FAMILY = {'STIXError': None, 'ValueError': None, 'TypeError': None}      # the library's documented error family
@@ -410,14 +410,71 @@ def init_prefix_contract():
         for p1, vs in x.ev_seq([a for a in e.args if not isinstance(a, ast.Starred)], p):
             yield p1, (vs if isinstance(vs, Exc) else Val('opaque', x=ast.unparse(e.func) + '()'))
 
+    # the extensions scan: which extension ids are registered, and which top-level properties a registered one declares, are functions of the id (registry content)
+    REGK = z3.Function('class_for_type(ext_id).registered', S, z3.BoolSort())
+    TPK = z3.Function('class_for_type(ext_id)._toplevel_properties.keys()', S, E.SetS)
+    EXTKEY = z3.Function('extensions.key_at', z3.IntSort(), S)
+    EXTS = get(kw, z3.StringVal('extensions'))
+    IS_MAP = z3.And(has(kw, z3.StringVal('extensions')), tag(EXTS) == TAG['dict'])
+    TOPLEVEL = z3.StringVal('toplevel-property-extension'); ETYPE = z3.StringVal('extension_type')
+
+    def top(j):
+        v = get(EXTS, EXTKEY(j))
+        return z3.And(tag(v) == TAG['dict'], has(v, ETYPE), tag(get(v, ETYPE)) == TAG['str'], E.sof(get(v, ETYPE)) == TOPLEVEL)
+
+    def flag_upto(i):
+        j = z3.Int('j!f'); return z3.Exists([j], z3.And(0 <= j, j < i, top(j), z3.Not(REGK(EXTKEY(j)))))
+
+    def rt_upto(i, s_):
+        j = z3.Int('j!r'); return z3.Exists([j], z3.And(0 <= j, j < i, top(j), REGK(EXTKEY(j)), TPK(EXTKEY(j))[s_]))
+
+    def m_items_ext(x, recv, args, e, p, site):
+        j = recv.t
+        q = p.fork(tag(j) != TAG['dict'])
+        if sat(q.pc): yield q, Exc('AttributeError', site)
+        q = p.fork(tag(j) == TAG['dict'], E.jlen(j) >= 0)
+        if sat(q.pc):
+            ii = z3.Int('ii!items')
+            q.pc.append(z3.ForAll([ii], z3.Implies(z3.And(0 <= ii, ii < E.jlen(j)), has(j, EXTKEY(ii)))))
+            yield q, Seq(lambda i: Val('tuple', x=[Str(EXTKEY(i)), JV(get(j, EXTKEY(i)))]), E.jlen(j))
+
     def h_class_for_type(x, e, p, site):
         for p1, vs in x.ev_seq(list(e.args), p):
             if isinstance(vs, Exc):
                 yield p1, vs; continue
-            yield p1, Val('cls', x={'found': z3.FreshConst(z3.BoolSort(), 'registered_ext')})
+            if vs[0].sort != 'str': raise Unsupported(site + ' extension id sort ' + vs[0].sort)
+            yield p1, Val('cls', x={'found': REGK(vs[0].t), 'key': vs[0].t})
 
     def h_getattr(x, e, p, site):
-        yield p, SetV(z3.FreshConst(E.SetS, 'toplevel_props'))
+        for p1, vs in x.ev_seq([e.args[0]], p):
+            if isinstance(vs, Exc):
+                yield p1, vs; continue
+            if vs[0].sort != 'cls' or ast.unparse(e.args[1]) not in ("'_toplevel_properties'", '"_toplevel_properties"'): raise Unsupported(site + ' getattr')
+            yield p1, SetV(TPK(vs[0].x['key']))
+
+    def inv_scan(x, env, i, it):
+        s_ = z3.String('s!inv')
+        return z3.And(env['has_unregistered_toplevel_extension'].t == flag_upto(i),
+                      z3.ForAll([s_], env['registered_toplevel_extension_props'].t[s_] == rt_upto(i, s_)))
+
+    def ens_scan(a, p):
+        s_ = z3.String('s!ens'); n = E.jlen(EXTS)
+        f = p.env.get('has_unregistered_toplevel_extension'); r = p.env.get('registered_toplevel_extension_props')
+        if f is None or r is None or f.sort != 'bool' or r.sort != 'set': raise SortMismatch('scan results')
+        return z3.And(f.t == z3.And(IS_MAP, flag_upto(n)), z3.ForAll([s_], r.t[s_] == z3.And(IS_MAP, rt_upto(n, s_))))
+
+    def extra_cond(a):
+        k = z3.String('k!x'); n = E.jlen(EXTS)
+        return z3.And(z3.Not(a['allow_custom'].t), z3.Not(z3.And(IS_MAP, flag_upto(n))),
+                      z3.Exists([k], z3.And(has(kw, k), k != z3.StringVal('custom_properties'), z3.Not(PROPS[k]), z3.Not(z3.And(IS_MAP, rt_upto(n, k))))))
+
+    def outcomes(x, outs, add):
+        for i, (kind, p, v) in enumerate(outs):
+            if kind == 'raise' and v.name == 'ExtraPropertiesError':
+                add(f'ExtraPropertiesError only for a property that neither the type nor a registered toplevel-property-extension declares, customisation disallowed, no unregistered toplevel-property-extension @path{i}',
+                    p.pc, extra_cond(x.params), p.exact and v.exact)
+            if kind == 'cut':
+                add(f'such a property never gets past this point in strict mode @path{i}', p.pc, z3.Not(extra_cond(x.params)), p.exact)
 
     def h_re_match(x, e, p, site):
         from vf.pyvc import rx
@@ -443,13 +500,15 @@ def init_prefix_contract():
     return Contract('stix2/base.py::_STIXBase.__init__', props=['C17', 'C04'],
                     params={'self': Val('stixself', x='self'), 'allow_custom': 'bool', 'interoperability': 'bool', 'kwargs': JV(kw)},
                     requires=[('keyword arguments form a dictionary (they come from **stix_dict)', lambda a: tag(kw) == TAG['dict'])],
-                    raises=dict(FAMILY), ignore_unknown_exceptions=True,
+                    raises=dict(FAMILY), ignore_unknown_exceptions=True, on_outcomes=outcomes,
+                    ensures=[('extensions scan: the unregistered flag is set exactly when some toplevel-property-extension entry is unregistered; the collected names are exactly those '
+                              'declared by the registered toplevel-property-extension entries (all entries, whatever their order)', ens_scan)],
                     cut=lambda st: isinstance(st, ast.For) and ast.unparse(st.iter) == 'property_order',
                     handlers={'get_timestamp': h_opaque, 'class_for_type': h_class_for_type, 'getattr': h_getattr, 're.match': h_re_match, 'isinstance:stix2.v20._STIXBase20': isinst(IS20),
                               'collections.ChainMap': h_opaque, 'itertools.chain': h_opaque, 'sorted': h_opaque, 'get_required_properties': h_opaque},
-                    registry_ext={'methods': {('.pop', 'J'): m_pop, ('.keys', 'J'): m_keys_j, ('.keys', 'set'): m_keys_set, ('.keys', 'litdict'): m_keys_litdict},
+                    registry_ext={'methods': {('.pop', 'J'): m_pop, ('.items', 'J'): m_items_ext, ('.keys', 'J'): m_keys_j, ('.keys', 'set'): m_keys_set, ('.keys', 'litdict'): m_keys_litdict},
                                   'attrs': {('stixself', '_properties'): attr_props, ('stixself', '__class__'): lambda x, o, p, site: iter([(p, Val('opaque', x='self.__class__'))])}, 'iterables': {'set': it_set}},
                     truthy_handlers={'cls': lambda x, v: v.x['found']},
                     local_sorts={'registered_toplevel_extension_props': 'set'},
-                    loops={0: {'kind': 'inv', 'inv': lambda x, env, i, it: z3.BoolVal(True)}},
-                    note='region contract: no KeyError/AttributeError/IndexError can escape from the code that inspects raw input before cleaning')
+                    loops={0: {'kind': 'inv', 'inv': inv_scan}},
+                    note='region contract: no KeyError/AttributeError/IndexError can escape from the code that inspects raw input before cleaning; the extensions scan and the strict refusal of undeclared properties')
